@@ -15,7 +15,7 @@ RULE = ("a case is an argparse PROGRAM (constructor keywords prefix_chars in {-,
         "argument_default / exit_on_error, then an ordered declaration list over: positionals with nargs None,?,*,+,2; "
         "options with store / store_true / store_false / store_const / count / append / append_const / extend, type=int, "
         "choices, defaults, required; argument groups; mutually exclusive groups (required or not); set_defaults on "
-        "declared and undeclared dests; parents= (stdlib or simple_parsing parents)), a dataclass FOREST registered with "
+        "declared and undeclared dests; parents= (one or two stdlib or simple_parsing parents, with set_defaults, with options that are proper prefixes of dataclass options)), a dataclass FOREST registered with "
         "add_arguments next to it (int/str/float/bool/List/Tuple/Optional leaves, required leaves, nested and Optional "
         "nested classes, one subgroups field, positional fields; names disjoint from the user's), an API "
         "(parse_args | parse_known_args) and an ARGV interleaving valid and invalid tokens of both worlds (unknown "
@@ -39,7 +39,7 @@ MANIFEST = {
              "and a collision is refused (witness). Model tied to the code by two ops: _postprocessing called directly on "
              "captured and edited raw namespaces, and parse_known_args/parse_args end to end with the stdlib parser "
              "(carrying copies of the real actions) as the engine. The property itself is evaluated differentially against "
-             "argparse.ArgumentParser running the same program with stand-in options. Open finding: parents= is ignored."),
+             "argparse.ArgumentParser running the same program with stand-in options."),
     "note": ("Trusted: Lean kernel + standard axioms; stdlib argparse; the harness (program generator, twin construction, "
              "computation of the wrapper list from the class specs). Modelled not verified: parsing.py:281-363,556-597,"
              "775-991,1135-1161, field_wrapper.py:168-229; ALWAYS_MERGE reuse is outside the model (C11)."),
@@ -406,13 +406,10 @@ def impl(case):
     obs["pre_fail"] = None if pre_fail is None else {k: pre_fail.get(k) for k in ("o", "code", "exc", "msg")}
 
     obs["twin"] = outcome(lambda: call_api(build_twin(c, standins, keep_dest=False), c["api"], argv))
-    if c.get("parents"):
-        obs["twin_noparents"] = outcome(
-            lambda: call_api(build_twin(c, standins, keep_dest=False, with_parents=False), c["api"], argv))
 
     if case["op"] == "post.parse":
         obs["engine"] = outcome(
-            lambda: build_twin(c, standins, keep_dest=True, with_parents=False).parse_known_args(list(argv)))
+            lambda: build_twin(c, standins, keep_dest=True).parse_known_args(list(argv)))
     else:
         # unit op: `_postprocessing` called directly on the (edited) raw namespace
         raw_ns = captured.get("ns_obj")
@@ -455,8 +452,9 @@ def chosen_of(raw, c):
 
 
 def defaults_keys(c):
+    """keys of `parser._defaults`: the program's own set_defaults and those inherited from parents="""
     ks = []
-    for d in c["decls"]:
+    for d in c["decls"] + [d for ps in c.get("parents", []) for d in ps["decls"]]:
         if d["k"] == "set_defaults":
             ks += list(d["kv"].keys())
     return sorted(set(ks))
@@ -467,6 +465,8 @@ def user_dests(c):
     for d in c["decls"]:
         if d["k"] == "arg":
             out.append(decl_dest(d, c["parser"].get("prefix_chars", "-")))
+    for ps in c.get("parents", []):
+        out += [decl_dest(d) for d in ps["decls"] if d["k"] == "arg"]
     return sorted(set(out))
 
 
@@ -619,15 +619,6 @@ def oracle(case, obs):
     return compare(c, obs["sp"], obs["twin"], [r["dest"] for r in c["regs"]], has_subgroup(c))
 
 
-def _parents_ignored(case, obs, fail):
-    """D7: the parser was given parents=, and this failure disappears when the reference is argparse WITHOUT those
-    parents (i.e. the difference is exactly that the parents' declarations were ignored)"""
-    c = case["case"]
-    if not c.get("parents") or "twin_noparents" not in obs:
-        return False
-    return fail not in compare(c, obs["sp"], obs["twin_noparents"], [r["dest"] for r in c["regs"]], has_subgroup(c))
-
-
 def _help_after_bad_subgroup(case, obs, fail):
     """-h/--help together with an invalid (or value-less) subgroup choice: the subgroup pre-parser of
     `_resolve_subgroups` (parsing.py:632-678, built with add_help=False) rejects the choice with status 2 before the
@@ -640,7 +631,7 @@ def _help_after_bad_subgroup(case, obs, fail):
             and pf.get("code") == 2 and decision(obs["sp"]) == "reject" and decision(obs["twin"]) == "exit0")
 
 
-FINDINGS = {"C09-parents-ignored": _parents_ignored, "C09-help-after-bad-subgroup": _help_after_bad_subgroup}
+FINDINGS = {"C09-help-after-bad-subgroup": _help_after_bad_subgroup}
 
 
 def nontrivial(case, obs):
@@ -1001,7 +992,7 @@ def sp_segments(rng, c):
                 walk(f["cls"])
             elif k == "subgroup":
                 key = rng.choice(["a", "b", "a", "b", "zz"])
-                segs.append(("sp", [opt, key], key != "zz"))
+                segs.append(("spsub", [opt, key], key != "zz"))      # never abbreviated: see note in sp_segments
                 if key in f["choices"]:
                     walk(f["choices"][key])
             elif f.get("positional"):
@@ -1023,7 +1014,15 @@ def sp_segments(rng, c):
 
     for r in c["regs"]:
         walk(r["cls"])
-    return segs
+    # NOTE: the subgroup option itself is not abbreviated: the subgroup pre-parser runs with allow_abbrev=False, the
+    # main parser accepts the abbreviation, so `--mode b` records subgroups={'…model': 'b'} next to the DEFAULT
+    # alternative's instance — subgroup-choice behaviour (C07), outside this property.
+    out = []
+    for kind, toks, good in segs:
+        if kind == "sp" and toks[0].startswith("--") and len(toks[0]) > 5 and rng.random() < 0.12:
+            toks = [toks[0][: rng.randint(4, len(toks[0]) - 1)]] + toks[1:]      # abbreviation (maybe a parent's exact option)
+        out.append((kind, toks, good))
+    return out
 
 
 def gen_argv(rng, c, valid_only=False):
@@ -1102,10 +1101,21 @@ def gen_case(rng, op, kind="normal"):
     if no_dash:
         c["api"] = "parse_known_args" if rng.random() < 0.7 else c["api"]
     if kind == "parents" or (kind == "normal" and rng.random() < 0.08):
-        pds = [gen_arg(rng, f) for f in rng.sample([["--pv"], ["--pw"], ["-P", "--pflag"]], rng.randint(1, 2))]
-        if rng.random() < 0.3:
-            pds.append({"k": "set_defaults", "kv": {"pextra": I(5)}})
-        c["parents"] = [{"sp": rng.random() < 0.5, "decls": pds}]
+        # stdlib or simple-parsing parents; their options may be proper prefixes of dataclass options (an exact match
+        # beats the abbreviation), they may carry set_defaults (for their own, the child's or undeclared dests)
+        pool = [["--pv"], ["--pw"], ["-P", "--pflag"], ["--ep"], ["--wid"], ["--na"], ["--dep"], ["--di"], ["--use"]]
+        rng.shuffle(pool)
+        parents = []
+        for _ in range(rng.choice([1, 1, 1, 2])):
+            pds = [gen_arg(rng, pool.pop()) for _ in range(rng.randint(1, 2))]
+            for d in pds:
+                d["kw"].pop("dest", None)
+            if rng.random() < 0.4:
+                own = [decl_dest(d) for d in pds if d["kw"].get("action", "store") in ("store", "store_const", "store_true", "store_false")]
+                key = rng.choice(own + ["pextra", "pextra2"])
+                pds.insert(rng.randint(0, len(pds)), {"k": "set_defaults", "kv": {key: rng.choice([I(5), S("pd"), {"t": "none"}])}})
+            parents.append({"sp": rng.random() < 0.5, "decls": pds})
+        c["parents"] = parents
     if kind == "collision":
         c["disjoint"] = False
         dest = regs[0]["dest"]
